@@ -54,6 +54,12 @@ claimed = {
  "C18": dict(text="Deductive proof on the real GateInstanceFromId, its regexp table and the deserialize* handlers, with the code's patterns translated to SMT-LIB regular languages: for each of the 14 identifier families plonky2 emits for supported gates (symbolic decimal parameters) the call returns, for every enumerated map iteration order, the gate type named with exactly the stated parameters and does not panic; for 11 families of identifiers of unimplemented gates (lookup, lookup table, the u32 crate gates, comparison, range check, and Exponentiation/RandomAccess/CosetInterpolation with D != 2) every path panics.",
              note=TRUST + " Models assumed: regexp (RE2 subset -> RegLan; FindStringSubmatch = leftmost match, decided structurally for identifiers that are concatenations of literals and parameters, otherwise any decomposition), strconv.Atoi/ParseUint on digit strings, strings.Split/TrimSpace uninterpreted (the weight list premise idlist says every trimmed piece is a decimal below 2^64; parsed weight values are not part of the statement). Iteration orders: insertion order and its reversal (quick), all 14 rotations and the reversal (thorough); any order visits a subset of the non-matching keys before the matching one. Parameters are bounded by 2^63 (larger values are refused by Atoi, not misbound). The identifier families are those of plonky2 at the revision the repository vendors (crypto/plonky2_u32) and of plonky2's Debug derive; hiding-refusal in ReadCommonCircuitData is part of C19's contract of that function.",
              technique="contracts + VC generation over go/ssa + SMT strings/regular languages (z3, cvc5 --strings-exp) + structural regex walk", design="§4 C18"),
+ "C15": dict(text="Deductive proof (SOUND and COMPLETE, symbolic gate parameters, arbitrary canonical GF(p^2) wires and constants) that EvalUnfiltered of eleven gate types - arithmetic, extension arithmetic, extension multiplication, base-sum, constant, exponentiation, noop, public input, random access (per bits 0..6), reducing, extension reducing - returns, constraint by constraint, the gate polynomial of plonky2 written over the GF(p^2) specification functions; that computeFilter is plonky2's compute_filter (product over the selector group except the row, times UNUSED_SELECTOR - s when there are several selectors) and that evalFiltered multiplies every unfiltered constraint by that filter after stripping the selector constants (SOUND mode, dynamic gate call through the interface-method contract).",
+             note=TRUST + " NOT covered at this commit: PoseidonGate, PoseidonMdsGate and CosetInterpolationGate evaluators (no contract; at the dynamic call their results are assumed canonical) and the position-wise summation in EvaluateGateConstraints (thin contract: length and canonicity). Gate parameters are bounded by 2^20 and wire vectors are assumed long enough in COMPLETE mode (circuit-configuration facts). 'Vanish on honestly generated rows' is a property of plonky2's polynomials, not of this code, and is not restated. The exponentiation multiplier is specified in the Go association; lemma ex_select_form proves it equal to plonky2's form.",
+             technique="contracts + VC generation over go/ssa + SMT; opaque GF(p^2) operations; per-parameter case split for the random-access gate", design="§4 C15"),
+ "C19": dict(text="Deductive proof (plain Go, all inputs) that the raw-structure-to-assignment functions are position preserving: DeserializeMerkleCap, StringArrayToHashBN254Array, DeserializeOpeningSet, DeserializeFriProof (four nested loops), DeserializeProofWithPublicInputs, DeserializeVerifierOnlyCircuitData, the Uint64Array* conversions, MerkleProofRaw.UnmarshalJSON's copy, and ReadCommonCircuitData (every configuration field, selector groups, gate ids, k_is; hiding refused): each output element equals the input element at the corresponding position, a hash string becomes exactly the *big.Int that SetString(s, 10) yields and a string SetString refuses leaves a nil *big.Int (no default value).",
+             note=TRUST + " encoding/json is an assumed external (the decoded raw structure is arbitrary); that gnark refuses a nil *big.Int when the assignment becomes a witness is gnark's behaviour and assumed; inner lists of opening pairs longer than two elements are read by their first two elements (the contract states len >= 2; longer lists are not refused - an observation outside the property's list of malformed values). Slices stored inside sequences at symbolic positions are modelled inline (no aliasing).",
+             technique="contracts + VC generation over go/ssa + SMT; quantified loop invariants over nested sequences", design="§4 C19"),
 }
 
 titles = {}
